@@ -257,7 +257,10 @@ def oracle(K, d, ops, tr, fin, judge):
         if code == 3:
             ping_out, n_cb_since, n_cb16_since, closed_at, rc_nonzero, eof_read_since = None, 0, 0, None, False, False
         elif code == 4:
-            ping_out, n_cb_since, n_cb16_since, closed_at, rc_nonzero, eof_read_since = t, 0, 0, None, False, False
+            # the EARLIEST unanswered PINGREQ is the one the deadline runs from: a client that pings again while a
+            # PINGREQ is outstanding (seed S-C08-6: an inbound PUBLISH cleared _ping_t) must not restart the clock
+            if ping_out is None:
+                ping_out, n_cb_since, n_cb16_since, closed_at, rc_nonzero, eof_read_since = t, 0, 0, None, False, False
         elif code == 2 and arg == 1:
             ping_out = None
         elif code == 2 and arg == 3:
